@@ -614,7 +614,7 @@ func ruleGenSafe(w *World, r *Report, gen, helper, execOp *ssa.Function) {
 			if !ok || !ec.Call.Signature().Variadic() || len(ec.Call.Args) != 2 || ec == c {
 				continue
 			}
-			if _, isSprintf := ec.Call.Value.(*ssa.Function); isSprintf {
+			if closureBehind(ec.Call.Value) != execOp {
 				continue
 			}
 			if rendered != nil && ec.Call.Args[0] == rendered {
